@@ -78,3 +78,23 @@ PROPS["C15"] = {
     "assumptions": ["the reference decoders (cmd/vendor/golang.org/x/arch of the installed toolchain) decode MOV imm64 / JMP [reg] / JMP rel32 / MOVZ / MOVK / LDR / BR correctly",
                     "arm64 and 386 emitters are compiled on amd64 from the working tree's source files (they depend on unsafe only)"],
 }
+
+PROPS["C20"] = {
+    "units": [
+        {"name": "stub", "pkg": "./internal/bytecode/stub", "run": "^TestVerifC20$", "race": True,
+         "timeout": {"quick": 300, "thorough": 1800}, "shards": {"quick": 1, "thorough": 8}},
+        {"name": "stub-mmap-failing", "pkg": "./internal/bytecode/stub", "run": "^TestVerifC20Rlimit$",
+         "timeout": {"quick": 300, "thorough": 1800}, "shards": {"quick": 1, "thorough": 4}},
+    ],
+    "rule": "in-package test of the stub allocator: (1) rapid-drawn sequences of request sizes 0..110000 against the fallback allocator with the bump "
+            "pointer reset per case, up to and beyond exhaustion; (2) 2..16 requesters behind a spin barrier issuing 1..64-byte requests until "
+            "exhaustion (race build); (3) Acquire with ordinary sizes (mmap path) and sizes the kernel rejects (0, >2^47: fallback dispatch); "
+            "(4) fault injection: child processes with RLIMIT_AS lowered so that every mmap fails and ordinary concurrent Acquire calls take the fallback. "
+            "Oracle: regions pairwise disjoint, inside the reserve, at least as large as requested, written through stub.Write and read back, executed "
+            "(MOV EAX,imm;RET). Non-trivial: a sequence with >=2 successful regions or reaching exhaustion, a concurrent round in which >=2 requesters "
+            "obtained regions, an Acquire sequence of >=2 sizes; distinct by the drawn sizes/goroutine count.",
+    "assumptions": ["the harness does not own the scheduler: the concurrent units are seeded stress searches (sound under any interleaving, incomplete)",
+                    "RLIMIT_AS is honoured by the kernel for anonymous mmap (child rounds where the Go runtime itself dies of the limit are counted as excluded)"],
+    "floors": [("fallback-concurrent", "rounds-with>=2-successful-requesters", 10), ("acquire", "fallback", 5), ("acquire", "mmap", 50),
+               ("acquire-mmap-failing", "child-rounds-ok", 1)],
+}
